@@ -97,8 +97,8 @@ def run(drv, args, seed):
     cov["programs_usable"] = usable
     cov["random_schemas"] = nrandom
     cov["smoke_pass"] = smoke
-    cov["units"] = [{"name": u["name"], "labels": u["labels"], "messages": len(u["messages"]), "plugin_ok": u["plugin_ok"], "compile_ok": u["compile_ok"]} for u in units]
-    cov["samples"] = (cov.get("samples") or [])[:8] + [{"unit": u["name"], "messages": u["messages"][:6], "descriptor_hex_prefix": u["descriptor_hex"][:160]} for u in units if u.get("random")][:4]
+    cov["units"] = [{"name": u["name"], "labels": u["labels"], "messages": len(u["messages"] or []), "plugin_ok": u["plugin_ok"], "compile_ok": u["compile_ok"]} for u in units]
+    cov["samples"] = (cov.get("samples") or [])[:8] + [{"unit": u["name"], "messages": (u["messages"] or [])[:6], "descriptor_hex_prefix": u["descriptor_hex"][:160]} for u in units if u.get("random")][:4]
     return drv.finish("C12", ev, viols, known_lines, infra)
 
 
